@@ -53,27 +53,15 @@ func (d *funcDecoder) DecodeStream(s *Stream, depth int64, p unsafe.Pointer) err
 				Type:   runtime.RType2Type(d.typ),
 				Offset: s.totalOffset(),
 			}
+		// skipValue has read and checked the literal already; the cursor is behind it
 		case 'n':
-			if err := nullBytes(s); err != nil {
-				return err
-			}
 			*(*unsafe.Pointer)(p) = nil
 			return nil
-		case 't':
-			if err := trueBytes(s); err == nil {
-				return &errors.UnmarshalTypeError{
-					Value:  "boolean",
-					Type:   runtime.RType2Type(d.typ),
-					Offset: s.totalOffset(),
-				}
-			}
-		case 'f':
-			if err := falseBytes(s); err == nil {
-				return &errors.UnmarshalTypeError{
-					Value:  "boolean",
-					Type:   runtime.RType2Type(d.typ),
-					Offset: s.totalOffset(),
-				}
+		case 't', 'f':
+			return &errors.UnmarshalTypeError{
+				Value:  "boolean",
+				Type:   runtime.RType2Type(d.typ),
+				Offset: s.totalOffset(),
 			}
 		}
 	}
